@@ -296,6 +296,86 @@ def exec (s : Sys) (m : Msg) : Sys × Res Unit :=
   | .ok s' => (s', .ok ())
   | .error e => (s, .error e)
 
+/-- the JSON variant name of a contract call (first key of the serialized message) -/
+def callName : Call → String
+  | .hub m => match m with
+    | .updateConfig .. => "update_config" | .updateParams .. => "update_params" | .setOwner _ => "set_owner"
+    | .acceptOwnership => "accept_ownership" | .bond => "bond" | .bondForStSei => "bond_for_st_sei"
+    | .bondRewards => "bond_rewards" | .updateGlobalIndex => "update_global_index"
+    | .withdrawUnbonded => "withdraw_unbonded" | .checkSlashing => "check_slashing" | .receive .. => "receive"
+    | .claimAirdrop => "claim_airdrop" | .swapHook => "swap_hook" | .redelegateProxy .. => "redelegate_proxy"
+    | .migrateWaitList _ => "migrate_unbond_wait_list"
+  | .tok m => match m with
+    | .transfer .. => "transfer" | .burn _ => "burn" | .send .. => "send" | .mint .. => "mint"
+    | .incAllow .. => "increase_allowance" | .decAllow .. => "decrease_allowance"
+    | .transferFrom .. => "transfer_from" | .burnFrom .. => "burn_from" | .sendFrom .. => "send_from"
+    | .updateMinter _ => "update_minter" | .updateMarketing => "update_marketing"
+  | .reward m => match m with
+    | .claim _ => "claim_rewards" | .updateConfig .. => "update_config" | .setOwner _ => "set_owner"
+    | .acceptOwnership => "accept_ownership" | .swapToRewardDenom => "swap_to_reward_denom"
+    | .updateGlobalIndex => "update_global_index" | .increase .. => "increase_balance"
+    | .decrease .. => "decrease_balance" | .updateSwapDenom .. => "update_swap_denom"
+  | .disp m => match m with
+    | .swap .. => "swap_to_reward_denom" | .dispatch => "dispatch_rewards" | .updateConfig .. => "update_config"
+    | .setOwner _ => "set_owner" | .acceptOwnership => "accept_ownership"
+    | .updateSwapContract _ => "update_swap_contract" | .updateSwapDenom .. => "update_swap_denom"
+    | .updateOracle _ => "update_oracle_contract"
+  | .reg m => match m with
+    | .add _ => "add_validator" | .remove _ => "remove_validator" | .updateConfig _ => "update_config"
+    | .redelegations _ => "redelegations" | .setOwner _ => "set_owner" | .acceptOwnership => "accept_ownership"
+  | .swapDenom .. => "swap_denom"
+  | .receiveHook .. => "receive"
+
+/-- trace token of a message (what the harness logs for the implementation) -/
+def msgTok : Msg → String
+  | .bankSend src dst d amt => s!"B{src}>{dst}.{d}.{amt}"
+  | .delegate _ v amt => s!"D{v}.{amt}"
+  | .undelegate _ v amt => s!"U{v}.{amt}"
+  | .redelegate _ src dst amt => s!"R{src}>{dst}.{amt}"
+  | .withdrawReward _ v => s!"W{v}"
+  | .setWithdrawAddr _ a => s!"A{a}"
+  | .wasm _ t c _ => if t = sinkA then s!"X{t}.*" else s!"X{t}.{callName c}"
+
+/-- `run` with the pre-order trace of every message handled (the failing one marked `!`) -/
+def runT : Nat → Sys → List Msg → List String → Res Sys × List String
+  | _, s, [], tr => (.ok s, tr)
+  | 0, _, _ :: _, tr => (.error "out of fuel", tr)
+  | fuel + 1, s, m :: rest, tr =>
+    match s.handle m with
+    | .error e => (.error e, tr ++ [msgTok m ++ "!"])
+    | .ok (s', subs) => runT fuel s' (subs ++ rest) (tr ++ [msgTok m])
+
+/-- `exec` with the trace -/
+def execT (s : Sys) (m : Msg) : (Sys × Res Unit) × List String :=
+  match runT 400 s [m] [] with
+  | (.ok s', tr) => ((s', .ok ()), tr)
+  | (.error e, tr) => ((s, .error e), tr)
+
+theorem runT_fst : ∀ (fuel : Nat) (s : Sys) (q : List Msg) (tr : List String), (runT fuel s q tr).1 = run fuel s q := by
+  intro fuel
+  induction fuel with
+  | zero => intro s q tr; cases q <;> rfl
+  | succ n ih =>
+    intro s q tr
+    cases q with
+    | nil => rfl
+    | cons m rest =>
+      simp only [runT, run]
+      cases s.handle m with
+      | error e => rfl
+      | ok r => exact ih _ _ _
+
+/-- the traced executor is the executor the theorems are about -/
+theorem execT_fst (s : Sys) (m : Msg) : (s.execT m).1 = s.exec m := by
+  unfold execT exec
+  have := runT_fst 400 s [m] []
+  cases h : runT 400 s [m] [] with
+  | mk r tr =>
+    rw [h] at this
+    simp only [] at this
+    rw [← this]
+    cases r <;> rfl
+
 end Sys
 
 /-- environment events -/
